@@ -277,3 +277,16 @@ theorem C12_inactive_mover (w : World) (c : MoveCall) (hI : w.WInv = true) (_ha 
   C12_inactive_mover_any w c hI hin
 
 end Abmarl
+
+namespace Abmarl
+open World
+
+/-- **C12 for a call made for any agent**, active or not, in the form the driver judges: for every world
+satisfying `WInv`, every agent and every action of the action space the outcome satisfies `specMoveAny`. -/
+theorem C12_moves_any (w : World) (c : MoveCall) (hI : w.WInv = true) (ha : c.agent < w.n)
+    (hsp : c.inSpace w = true) : specMoveAny w c (runMoveCall w c) = true := by
+  cases hact : (w.stOf c.agent).active with
+  | true => exact C12_moves_judge w c hI ha hact hsp
+  | false => exact C12_inactive_mover w c hI ha hact
+
+end Abmarl
